@@ -80,6 +80,7 @@ def handle (line : String) : String :=
   | "S07" :: rest => handleS07 rest
   | "W19" :: rest => handleW19 rest
   | "T03" :: rest => handleT03 rest
+  | "K03" :: rest => handleK03 rest
   | "S08" :: rest => handleS08 rest
   -- direct predicates on the implementation: the only acceptable observation is `holds`
   | "Z06" :: _ => "M holds ;; S holds"
